@@ -186,11 +186,13 @@ Proof.
   destruct (P c (or_introl eq_refl)) as (t & i1 & pd1 & st & -> & Hi & Hp & G1 & Gt & Cn).
   inversion ND as [|x l Hnin ND']; subst. simpl in Hnin.
   pose proof (resolve_one_self s t i1 i pd1 pd st Gt Hi Hp) as Hres. cbv zeta in Hres.
-  set (s' := resolve_one s (t, i1, i, pd1, pd)) in *. destruct Hres as [Hself Hoth].
-  assert (SL : slots s' = slots s) by apply slots_resolve_one.
+  destruct Hres as [Hself Hoth].
+  remember (resolve_one s (t, i1, i, pd1, pd)) as s' eqn:Es'.
+  assert (SL : slots s' = slots s) by (subst s'; apply slots_resolve_one).
   assert (OT : forall t', t' <> t -> get t' (table s') = get t' (table s) /\
                                      forall p, copy s' p t' = copy s p t').
-  { intros t' Hne. apply (resolve_one_other s (t, i1, i, pd1, pd) t'). exact Hne. }
+  { intros t' Hne. subst s'. apply (resolve_one_other s (t, i1, i, pd1, pd) t'). exact Hne. }
+  clear Es'.
   (* the old copy exists, on pd1 *)
   assert (C1 : copy s pd1 t <> None).
   { destruct (A t i1 st Gt) as (p & Gp & Cp). rewrite G1 in Gp. inversion Gp; subst. exact Cp. }
